@@ -317,11 +317,13 @@ PROPS = {
         "level": "proof",
         "lean_modules": ["SqlizeModel.Props.C10"],
         "theorems": ["Sqlize.C10.keyword_spellings", "Sqlize.C10.keywords_fixed", "Sqlize.C10.apply_only_case", "Sqlize.C10.hash_case_free"],
-        "suites": [{"name": "struct", "kind": "struct"}, {"name": "hash"}],
-        "corr_points": ["AddTable", "AddTable-other-case"],
+        "suites": [{"name": "struct", "kind": "struct"}, {"name": "hash"}, {"name": "pair"}],
+        "corr_points": ["AddTable", "AddTable-other-case", "StringUp-other-case", "StringDown-other-case"],
         "rule": STRUCT_RULE + " | C10: per tag keyword a random camelCase / snake_case spelling and a shuffled item order, the expected schema does not "
                 "depend on either; every struct is rendered under both keyword-case options (texts equal up to ASCII case, quoted identifiers / "
-                "literals / comments identical); hash suite: same HashValue under both options",
+                "literals / comments identical); hash suite: same HashValue under both options; pair suite: every pair's StringUp / StringDown is "
+                "printed under both keyword-case options: equal up to ASCII case, identical inside quotes (identifiers, string literals, enum labels, "
+                "comments), and equal to the model's rendering under the other option",
         "trusted_base": COMMON_TB + PAIR_TB,
         "assumptions": ["exported ASCII field names"],
         "explanation": "Proved by kernel evaluation of the ToSnakeCase model: every documented camelCase spelling normalises to the keyword the tag "
